@@ -4,7 +4,9 @@ import (
 	"bytes"
 	"context"
 	"encoding/json"
+	"fmt"
 	"io"
+	"strconv"
 	"strings"
 
 	"github.com/99designs/gqlgen/graphql"
@@ -28,7 +30,7 @@ type Query {
 }
 type Node { id: String! op: String! child: Node }
 type Mutation { set(v: String): String! }
-type Subscription { tick: String! }
+type Subscription { tick(n: Int, g: String): String! }
 input In { x: String y: [Int!] }
 `
 
@@ -57,11 +59,61 @@ func (echoSchema) Exec(ctx context.Context) graphql.ResponseHandler {
 	case ast.Mutation:
 		return graphql.OneShot(&graphql.Response{Data: execObj(ctx, opCtx, "Mutation", opCtx.Operation.SelectionSet, 0)})
 	default:
-		return graphql.OneShot(graphql.ErrorResponse(ctx, "subscriptions are not served over this transport"))
+		if opCtx.Headers.Get(wsMarkHeader) == "" {
+			return graphql.OneShot(graphql.ErrorResponse(ctx, "subscriptions are not served over this transport"))
+		}
+		return tickStream(ctx, opCtx)
+	}
+}
+
+// tickStream: `tick(n:, g:)` delivers n payloads (default 2); with a gate token g that the harness registered,
+// each payload waits until the harness steps the gate, so that the harness decides what else happens on the
+// connection while the subscription is running. The payloads echo the operation's own name and variables.
+func tickStream(ctx context.Context, opCtx *graphql.OperationContext) graphql.ResponseHandler {
+	fields := graphql.CollectFields(opCtx, opCtx.Operation.SelectionSet, []string{"Subscription"})
+	n, tok := 2, ""
+	if len(fields) > 0 {
+		args := fields[0].ArgumentMap(opCtx.Variables)
+		if v, ok := args["n"]; ok && v != nil {
+			if k, err := strconv.Atoi(fmt.Sprint(v)); err == nil {
+				n = k
+			}
+		}
+		if v, ok := args["g"].(string); ok {
+			tok = v
+		}
+	}
+	i := 0
+	return func(ctx context.Context) *graphql.Response {
+		if i >= n || len(fields) == 0 {
+			return nil
+		}
+		if g := lookupGate(tok); g != nil {
+			select {
+			case g.arrived <- struct{}{}:
+			default:
+			}
+			select {
+			case <-g.release:
+			case <-ctx.Done():
+				return nil
+			}
+		}
+		i++
+		out := graphql.NewFieldSet(fields)
+		for j, f := range fields {
+			out.Values[j] = graphql.MarshalString(fmt.Sprintf("%s %d/%d op=%s vars=%s", f.Name, i, n, opCtx.OperationName, canon(opCtx.Variables)))
+		}
+		var b bytes.Buffer
+		out.MarshalGQL(&b)
+		return &graphql.Response{Data: b.Bytes()}
 	}
 }
 
 func execObj(ctx context.Context, opCtx *graphql.OperationContext, typ string, sels ast.SelectionSet, depth int) []byte {
+	if depth == 0 {
+		parkAt("exec", opCtx.Headers) // the document is in hand, nothing collected yet
+	}
 	fields := graphql.CollectFields(opCtx, sels, []string{typ})
 	out := graphql.NewFieldSet(fields)
 	for i, f := range fields {
@@ -86,9 +138,11 @@ func execObj(ctx context.Context, opCtx *graphql.OperationContext, typ string, s
 		case "id":
 			s = "n" + string(rune('0'+depth))
 		case "node":
+			parkAt("node", opCtx.Headers) // the parent selection set is collected, the child's is not
 			out.Values[i] = rawJSON(execObj(ctx, opCtx, "Node", f.Selections, depth+1))
 			continue
 		case "child":
+			parkAt("child", opCtx.Headers)
 			if depth >= 3 {
 				out.Values[i] = graphql.Null
 			} else {
